@@ -155,4 +155,41 @@ PROPS = {
         floors=dict(quick={'distinct_nontrivial': 20000, 'accepted_can': 1000, 'accepted_canfd': 1000, 'accepted_lin': 1000, 'accepted_eth': 1000, 'accepted_analog': 1000, 'accepted_cm': 1000, 'accepted_if': 1000, 'feat:c03_classes': 7},
                     thorough={'distinct_nontrivial': 200000, 'accepted_cm': 10000, 'accepted_if': 10000}),
     ),
+
+    'C11': dict(
+        technique='ASan+UBSan run of every public setter against a shadow bit-image of the object (table of offset/width/mask per field): read-back, all other getters, all other raw bits',
+        level_text='Exploration, exhaustive for small fields: for 20 header/payload classes and 175 fields, every setter is called from default / all-zero / all-ones / random prior states with every in-range value (<= 8 bit exhaustive; <= 16 bit exhaustive in thorough) and in random set/clear sequences; after each call the value must read back, every other getter must equal the extract of the shadow image and no raw bit outside the field may change. Overlapping views (flags word vs single flags, id word, crc word, LIN pid) are judged through the shared shadow word.',
+        level_note='Trusted: field table in harness/common/fields.h (offset, width, mask written from the protocol layout). Packet / PayloadType have no wire image: a virtual image serialised from their getters is used.',
+        stages=[dict(driver='drv_fields', flavour='asan')],
+        rule='cases = (class, field, background) with every in-range value written (exhaustive for fields <= 8 bits, for <= 16 bits a 600-value lattice in quick and exhaustive in thorough, boundary + walking bits + 64 random for wider fields, special and random finite values for floats) + random sequences of 8..64 setter calls on one object; every setter call is one evaluation. distinct_nontrivial = distinct (class, field, background in {default, all-zero, all-ones, random}, value class in {0, max, single-bit, other}) tuples.',
+        assumptions=COMMON_ASSUME,
+        floors=dict(quick={'distinct_nontrivial': 2000, 'feat:fields_exercised': 175, 'setter_sequences': 3000}, thorough={'distinct_nontrivial': 2500, 'feat:fields_exercised': 175}),
+    ),
+    'C12': dict(
+        technique='ASan+UBSan run comparing API writes and getter reads with an independent layout table (byte offset, width, bit mask, big-endian) on raw object images; header sizes and reserved bits of default objects',
+        level_text='Exploration, exhaustive for small fields: (a) sizes of all header classes and default payloads equal the standard, reserved bits of default objects are zero; (b) a value written through the API appears big-endian at exactly the table position and nothing else changes; (c) for arbitrary raw images every getter returns the value the table extracts; (d) reserved bits survive every in-range write. Same executions as C11, judged against the layout table.',
+        level_note='Trusted: the layout table, transcribed from ASAM CMP 1.0 / TECMP as documented in DESIGN.md section 6 (the standard documents are not in the sandbox; the captured frames in the repository tests corroborate it).',
+        stages=[dict(driver='drv_fields', flavour='asan')],
+        rule='cases = (class, field, background) with every in-range value written (exhaustive for fields <= 8 bits, for <= 16 bits a 600-value lattice in quick and exhaustive in thorough, boundary + walking bits + 64 random for wider fields, special and random finite values for floats) + random sequences of 8..64 setter calls on one object; every setter call is one evaluation. distinct_nontrivial = distinct (class, field, background in {default, all-zero, all-ones, random}, value class in {0, max, single-bit, other}) tuples.',
+        assumptions=COMMON_ASSUME,
+        floors=dict(quick={'distinct_nontrivial': 2000, 'feat:fields_exercised': 175, 'size_checks': 20, 'reserved_checks': 16}, thorough={'distinct_nontrivial': 2500, 'feat:fields_exercised': 175}),
+    ),
+    'C13': dict(
+        technique='ASan+UBSan run of setData / header-setter sequences per payload class; raw bytes compared with the wire model\'s serialisation of a shadow of the logical content; own validator and decoder must accept',
+        level_text='Exploration with exhaustive length sweeps: CAN / CAN-FD / LIN data lengths 0..255, Ethernet / analog 0..70 + boundaries up to 65529, capture-module strings of every length 0..1000 for each of the four strings, all (first, second) stream-id counts in 0..40 x 0..40, and random sequences of 1..6 setData calls interleaved with header setters. After every setData: bytes equal the independent serialisation of the final content (hence history independent), getters return what was supplied, DLC code, NUL termination and even padding, validator and decoder accept.',
+        level_note='Trusted: wire-model serialisers in wire.h. Header flags used are bus-error free so that "the decoder accepts" is demanded only where the statement demands it.',
+        stages=[dict(driver='drv_fields', flavour='asan')],
+        rule='cases = builder sequences; every checked setData call is one evaluation; distinct_nontrivial = distinct (class, previous-length relation, parity pattern, DLC-code?/vendor-data?, first call?) tuples combined with the length.',
+        assumptions=COMMON_ASSUME,
+        floors=dict(quick=dict(distinct_nontrivial=5000, setdata_calls_checked=50000), thorough=dict(distinct_nontrivial=20000)),
+    ),
+    'C14': dict(
+        technique='ASan+UBSan run of copy/move construction and assignment over all ordered (source, target) pairs of an object pool, snapshot comparison, no-sharing mutation test, equality laws on all pairs',
+        level_text='Exploration with exhaustive pairing: a pool of ~40 packets (default packet, zero-length payloads of different types, every payload kind, equal-looking twins, 13 variants differing in exactly one field) - all ordered pairs x {copy-construct, move-construct, copy-assign, move-assign}, self-assignment, and all pairs for ==/!= (reflexive, symmetric, agrees with the field-by-field snapshot for non-empty payloads, != is the negation); Payload, typed payload bytes and TECMP::Payload likewise.',
+        level_note='Trusted: snapshot.h (all null-safe getters + payload bytes). A packet without payload can only be observed through isValid()/getPayloadLength().',
+        stages=[dict(driver='drv_fields', flavour='asan')],
+        rule='cases = rounds over a pool (4 deterministic pools + seeded random pools); every operation on a pair is one evaluation; distinct_nontrivial = distinct (source class, target class, operation, relation) tuples.',
+        assumptions=COMMON_ASSUME,
+        floors=dict(quick={'distinct_nontrivial': 3000, 'equality_pairs': 50000, 'feat:c14_relations': 12}, thorough={'distinct_nontrivial': 3000}),
+    ),
 }
